@@ -19,8 +19,14 @@ class Diverged(Exception):
     """A replayed prefix met a different choice point than the one recorded."""
 
 
-class UnmodelledRandomness(Exception):
-    """The code under test used a random API the harness does not enumerate."""
+class UnmodelledRandomness(BaseException):
+    """The code under test used a random API the harness does not enumerate.  Derives from BaseException so that
+    no `except Exception` in the code under test or in a check can mistake a limit of the HARNESS for a failure of
+    the code: it always surfaces as HARNESS-ERROR, never as a violation."""
+
+
+class GlobalRandomnessUsed(Exception):
+    """Randomness that bypasses the generator that was passed in (numpy's / Python's global state)."""
 
 
 class SymU(object):
@@ -42,6 +48,7 @@ class SymU(object):
         if c >= self.hi:
             return True
         p = (c - self.lo) / (self.hi - self.lo)
+        self.rng._s.draws.append(("u<", (p,)))
         k = self.rng._choose("u<", [p, 1.0 - p], ("lt", c))
         if k == 0:
             self.hi = c
@@ -201,13 +208,19 @@ class EnumRNG(np.random.Generator):
         return int(low) + idx
 
     def choice(self, a, size=None, replace=True, p=None, *args, **kw):
-        if p is not None or args or kw:
-            raise UnmodelledRandomness("choice(p=...)")
-        self._dummy.choice(a, size, replace)  # raises on empty population etc. exactly as numpy
+        if args or kw:
+            raise UnmodelledRandomness("choice(axis/shuffle=...)")
+        self._dummy.choice(a, size, replace, p)  # raises on empty population, bad p etc. exactly as numpy
         arr = np.asarray(a)
         if arr.ndim == 0:
             arr = np.arange(int(arr))
         n = len(arr)
+        if p is not None:
+            if size is not None:
+                raise UnmodelledRandomness("choice(p=..., size=...)")
+            idx = self._choose("choiceP", [float(x) for x in p])
+            self._s.picks.append(arr[idx])
+            return arr[idx]
         if size is None:
             idx = self._choose("choice1", [1.0 / n] * n)
             self._s.picks.append(arr[idx])
@@ -283,13 +296,36 @@ class EnumRNG(np.random.Generator):
         v = self._choose("binomial", probs)
         return v if size is None else np.full(size, v)
 
+    def uniform(self, low=0.0, high=1.0, size=None):
+        if size is not None:
+            raise UnmodelledRandomness("uniform(size=...)")
+        if float(low) == 0.0 and float(high) == 1.0:
+            return SymU(self)
+        v = self._quantile_draw("uniform", (low, high), lambda u: low + (high - low) * u)
+        return v
+
+    def normal(self, loc=0.0, scale=1.0, size=None):
+        from scipy import stats
+
+        v = self._quantile_draw("normal", (loc, scale), lambda u: stats.norm.ppf(u, loc, scale))
+        return v if size is None else np.full(size, v)
+
+    def standard_normal(self, size=None, *a, **k):
+        return self.normal(0.0, 1.0, size)
+
+    def exponential(self, scale=1.0, size=None):
+        from scipy import stats
+
+        v = self._quantile_draw("exponential", (scale,), lambda u: stats.expon.ppf(u, scale=scale))
+        return v if size is None else np.full(size, v)
+
     def spawn(self, n_children):
         return [EnumRNG(_sched=self._s) for _ in range(n_children)]
 
 
 _ALLOWED = {
     "random", "multinomial", "integers", "choice", "shuffle", "permutation", "beta",
-    "standard_gamma", "gamma", "binomial", "spawn", "bit_generator",
+    "standard_gamma", "gamma", "binomial", "spawn", "bit_generator", "uniform", "normal", "standard_normal", "exponential",
 }
 
 
@@ -379,7 +415,7 @@ def explore_all(run, **kw):
 # ------------------------------------------------------------------------------------------
 class _ForbiddenGlobalState(object):
     def __getattr__(self, name):
-        raise UnmodelledRandomness("numpy's global random state was used (%s): randomness that bypasses the passed generator" % name)
+        raise GlobalRandomnessUsed("numpy's global random state was used (%s): randomness that bypasses the passed generator" % name)
 
 
 def forbid_global_randomness():
@@ -404,7 +440,7 @@ def forbid_global_randomness():
 
     def refuser(name):
         def f(*a, **k):
-            raise UnmodelledRandomness("np.random.%s: randomness that bypasses the passed generator" % name)
+            raise GlobalRandomnessUsed("np.random.%s: randomness that bypasses the passed generator" % name)
 
         return f
 
@@ -416,7 +452,7 @@ def forbid_global_randomness():
 
     def default_rng(seed=None):
         if seed is None:
-            raise UnmodelledRandomness("np.random.default_rng() without a seed: entropy-seeded generator inside the code under test")
+            raise GlobalRandomnessUsed("np.random.default_rng() without a seed: entropy-seeded generator inside the code under test")
         return real_default_rng(seed)
 
     np.random.default_rng = default_rng
